@@ -25,6 +25,7 @@ import (
 var (
 	paramsBaseOnce sync.Once
 	paramsBase     map[string]json.RawMessage
+	paramsBaseErr  interface{} // panic value of the staging, re-raised for every params history
 )
 
 const paramsBatch = "C01-001-20200101-20210101-001"
@@ -35,19 +36,23 @@ const paramsBasket = "eco.uC.PRM"
 // allowed, user 4 on the (disabled) creator allowlist.
 func paramsGenesis() map[string]json.RawMessage {
 	paramsBaseOnce.Do(func() {
+		defer func() { paramsBaseErr = recover() }()
 		paramsBase = stage(nil, T0, func(a *chain.App) {
-			mustOK(a.Deliver(a.MsgAddAllowedDenom("uatom", "atom", 6)), "allow uatom")
-			mustOK(a.Deliver(a.MsgAddAllowedDenom("uregen", "regen", 6)), "allow uregen")
-			mustOK(a.Deliver(a.MsgAddClassCreator(4)), "creator 4")
-			mustOK(a.Deliver(a.MsgCreateClass(0, []int{0}, "md", "C", chain.Coin("stake", 20000000))), "class")
-			mustOK(a.Deliver(a.MsgCreateProject(0, "C01", "md", "US-WA", "", nil)), "project")
-			mustOK(a.Deliver(a.MsgCreateBatch(0, "C01-001", "", []*base.BatchIssuance{a.Issuance(0, "100000", "", ""), a.Issuance(1, "100000", "", ""), a.Issuance(2, "100000", "", "")},
-				"md", date(2020, 1, 1), date(2021, 1, 1), true, nil)), "batch")
-			mustOK(a.Deliver(a.MsgBasketCreate(3, "PRM", "params basket", "C", []string{"C01"}, true, nil, sdk.NewCoins(sdk.NewInt64Coin("stake", 20000000)))), "basket")
-			mustOK(a.Deliver(a.MsgBasketPut(0, paramsBasket, chain.BasketCredit(paramsBatch, "5000"))), "put")
-			mustOK(a.Deliver(a.MsgBasketPut(1, paramsBasket, chain.BasketCredit(paramsBatch, "5000"))), "put")
+			stageDo(a, "params", "allow uatom", a.MsgAddAllowedDenom("uatom", "atom", 6))
+			stageDo(a, "params", "allow uregen", a.MsgAddAllowedDenom("uregen", "regen", 6))
+			stageDo(a, "params", "creator 4", a.MsgAddClassCreator(4))
+			stageDo(a, "params", "class", a.MsgCreateClass(0, []int{0}, "md", "C", chain.Coin("stake", 20000000)))
+			stageDo(a, "params", "project", a.MsgCreateProject(0, "C01", "md", "US-WA", "", nil))
+			stageDo(a, "params", "batch", a.MsgCreateBatch(0, "C01-001", "", []*base.BatchIssuance{a.Issuance(0, "100000", "", ""), a.Issuance(1, "100000", "", ""), a.Issuance(2, "100000", "", "")},
+				"md", date(2020, 1, 1), date(2021, 1, 1), true, nil))
+			stageDo(a, "params", "basket", a.MsgBasketCreate(3, "PRM", "params basket", "C", []string{"C01"}, true, nil, sdk.NewCoins(sdk.NewInt64Coin("stake", 20000000))))
+			stageDo(a, "params", "put", a.MsgBasketPut(0, paramsBasket, chain.BasketCredit(paramsBatch, "5000")))
+			stageDo(a, "params", "put", a.MsgBasketPut(1, paramsBasket, chain.BasketCredit(paramsBatch, "5000")))
 		})
 	})
+	if paramsBaseErr != nil {
+		panic(paramsBaseErr)
+	}
 	out := map[string]json.RawMessage{}
 	for k, v := range paramsBase {
 		out[k] = append(json.RawMessage(nil), v...)
@@ -294,16 +299,16 @@ func runIDs(c Cfg) *Result {
 		setSeqRows(g1, "regen.ecocredit.v1.ClassSequence", "credit_type_abbrev", "C", s[0])
 		g2 := stage(g1, gt, func(a *chain.App) {
 			for _, ab := range []string{"A", "BT", "ZZZ"} {
-				mustOK(a.Deliver(a.MsgAddCreditType(&base.CreditType{Abbreviation: ab, Name: "type-" + ab, Unit: "u", Precision: 6})), "credit type")
+				stageDo(a, "ids", "credit type", a.MsgAddCreditType(&base.CreditType{Abbreviation: ab, Name: "type-" + ab, Unit: "u", Precision: 6}))
 			}
-			mustOK(a.Deliver(a.MsgAddAllowedBridgeChain("polygon")), "chain")
-			mustOK(a.Deliver(a.MsgCreateClass(0, []int{0, 1}, "md", "C", chain.Coin("stake", 20000000))), "class")
+			stageDo(a, "ids", "chain", a.MsgAddAllowedBridgeChain("polygon"))
+			stageDo(a, "ids", "class", a.MsgCreateClass(0, []int{0, 1}, "md", "C", chain.Coin("stake", 20000000)))
 		})
 		// stage 2: project sequence start; create the project
 		setSeqRows(g2, "regen.ecocredit.v1.ProjectSequence", "class_key", "1", s[1])
 		classID := fmt.Sprintf("C%02d", s[0])
 		g3 := stage(g2, gt, func(a *chain.App) {
-			mustOK(a.Deliver(a.MsgCreateProject(0, classID, "md", "US", "", nil)), "project")
+			stageDo(a, "ids", "project", a.MsgCreateProject(0, classID, "md", "US", "", nil))
 		})
 		// stage 3: batch sequence start; neighbouring ids ten times larger follow in the history
 		setSeqRows(g3, "regen.ecocredit.v1.BatchSequence", "project_key", "1", s[2])
